@@ -264,8 +264,13 @@ def make_wsdl(form):
               '<xsd:element name="raw" minOccurs="0"><xsd:complexType><xsd:sequence><xsd:any/></xsd:sequence>'
               '</xsd:complexType></xsd:element><xsd:element name="items" type="xsd:string" minOccurs="0" '
               'maxOccurs="unbounded"/></xsd:sequence></xsd:complexType></xsd:element>')
-    w = wsdlkit.wsdl_doc(schema, "f", None, form=form, extra_schemas=SCHEMA2,
-                         header_parts=[("element", "x:H")]).decode()
+    # (the second header part is an element of a schema whose namespace no prefix is bound to anywhere above the
+    # schema: the part binds one for its own reference)
+    nohdr = ('<xsd:schema targetNamespace="urn:nohdr" elementFormDefault="qualified" '
+             'xmlns:xsd="http://www.w3.org/2001/XMLSchema"><xsd:element name="NH"><xsd:complexType><xsd:sequence>'
+             '<xsd:element name="tok" type="xsd:string"/></xsd:sequence></xsd:complexType></xsd:element></xsd:schema>')
+    w = wsdlkit.wsdl_doc(schema, "f", None, form=form, extra_schemas=SCHEMA2 + nohdr,
+                         header_parts=[("element", "x:H"), ("element", 'nh:NH" xmlns:nh="urn:nohdr')]).decode()
     return w.replace("<wsdl:definitions ", '<wsdl:definitions xmlns:o="urn:other" ', 1).encode()
 
 
@@ -286,6 +291,14 @@ def must_understand_header():
     e = Element("Session", ns=("ses", "urn:session"))
     e.setText("abc")
     e.set("SOAP-ENV:mustUnderstand", "1")
+    return e
+
+
+def envelope_xsi_header():
+    """A caller-made header that marks itself nil by hand with the envelope's xsi prefix, as callers do."""
+    from suds.sax.element import Element
+    e = Element("Opt", ns=("op", "urn:opt"))
+    e.set("xsi:nil", "true")
     return e
 
 
@@ -348,7 +361,9 @@ def option_checks(ctx):
     from suds.sax.element import Element
     for form in ("qualified", "unqualified"):
         w = make_wsdl(form)
-        headers_variants = [(), ("hv",), (raw_element(9),), (typed_header(),), (must_understand_header(),)]
+        headers_variants = [(), ("hv",), (raw_element(9),), (typed_header(),), (must_understand_header(),),
+                            (envelope_xsi_header(),), ("hv", {"tok": "t"}), {"H": "hv", "NH": {"tok": "t"}},
+                            {"NH": {"tok": "t"}}]
         base = wsdlkit.client(w, nosend=True)
         for ai, kw in enumerate(arg_sets(base, rng)):
             for hv in headers_variants:
@@ -379,6 +394,25 @@ def option_checks(ctx):
                         continue
                     results[(prefixes, pretty, xstq, sortns)] = (info, env)
                     ctx.case(common.canon(meta), True)
+                    # what the header holds, absolutely (not only the same under every setting)
+                    want_h = None
+                    if isinstance(hv, dict) or (len(hv) == 2 and isinstance(hv[1], dict)):
+                        want_h = ([[wsdlkit.TNS, "H", "hv"]] if (not isinstance(hv, dict) or "H" in hv) else []) + \
+                            [["urn:nohdr", "NH", None], ["urn:nohdr", "tok", "t"]]
+                    elif len(hv) == 1 and getattr(hv[0], "name", None) == "Opt":
+                        want_h = [["urn:opt", "Opt", None, [[XSI, "nil", "true"]]]]
+                    if want_h is not None:
+                        root = xmlread.parse(env)
+                        hd = xmlread.find1(root, "Header")
+                        got_h = []
+                        for n_ in (list(xmlread.walk(hd))[1:] if hd is not None else []):
+                            item = [n_["name"][0], n_["name"][1], (n_.get("text") or "").strip() or None]
+                            if want_h and len(want_h[0]) == 4:
+                                item.append(sorted([k_[0], k_[1], v_] for k_, v_ in n_["attrs"].items()))
+                            got_h.append(item)
+                        if got_h != want_h:
+                            ctx.fail("the soap header entries are not the elements their declarations / the caller's "
+                                     "element name", meta, got_h, want_h)
                     if raw_before is not None and (kw["raw"].plain() != raw_before or kw["raw"].parent is not None):
                         ctx.fail("building a request changed the caller's raw Element argument (the same object passed "
                                  "again no longer means the same)", meta, kw["raw"].plain(), raw_before)
